@@ -2408,7 +2408,10 @@ func (pid *PID) reset() {
 	pid.processedCount.Store(0)
 	pid.failureCount.Store(0)
 	pid.reinstateCount.Store(0)
-	pid.restartCount.Store(0)
+	// restartCount is deliberately not zeroed: reset() also runs in the shutdown
+	// embedded in a restart of a running actor (a one-for-all sibling, a child of
+	// a restarted parent, PID.Restart), and zeroing it there makes RestartCount
+	// report 1 forever. A fresh spawn allocates a new PID and starts at zero.
 	pid.startedAt.Store(0)
 	pid.setState(runningState, false)
 	pid.setState(stoppingState, false)
